@@ -135,7 +135,7 @@ def jobs(tier, seed):
                 picked.add(tuple(sk))
         # always in the quick tier: a producer and a consumer around an ecall drain
         for a_ in ("add", "lw"):
-            for b_ in ("add", "sw", "beq"):
+            for b_ in ("add", "sw"):  # (a, ecall, beq) re-executes the ecall in a loop: 9 min alone, thorough tier only
                 if (a_, "ecall", b_) not in picked:
                     out.append(l3job([a_, "ecall", b_], False))
                     picked.add((a_, "ecall", b_))
